@@ -172,6 +172,11 @@ def access(fn, kind, pid, survives_zombie=False):
     if empty_when_gone(fn, pid):
         W.log.append(fn + ":empty")
         return
+    if getattr(W, "always", None) and pid == W.pid:
+        # the caller may not look at this process at all: every per-process access is refused
+        W.log.append(fn + ":" + W.always)
+        W.raised = make_error(W.always)
+        raise W.raised
     if W.armed and pid == W.pid:
         W.calls += 1
         W.log.append(fn)
@@ -694,6 +699,22 @@ def run_row(psutil, mod, row):
         r = outcome(fn)
         r.update(world_info())
         return r
+    if k == "refused":
+        # every native access to the process is refused, then access is granted again: the refusal is
+        # reported as such and is not remembered as an answer
+        W.reset(row["pid"], False, True, row.get("name", PROCNAME), row.get("scale", 1))
+        target = psutil.Process(row["pid"])
+        target.name()
+        W.always = row["e"]
+        try:
+            first = outcome(lambda: call(target, row["m"], PUBLIC_CALLS))
+        finally:
+            W.always = None
+        second = outcome(lambda: call(target, row["m"], PUBLIC_CALLS))
+        fresh = outcome(lambda: call(psutil.Process(row["pid"]), row["m"], PUBLIC_CALLS))
+        first.update(world_info())
+        first["second"], first["fresh"] = second, fresh
+        return first
     if k == "einval":
         # NetBSD: KERN_PROC_ARGS answers EINVAL for a process it cannot describe any more -- a zombie,
         # or a PID that has just gone: the layer has to say which
